@@ -112,11 +112,15 @@ inductive TErr
   | join (es : List TErr)      -- `xerrors.Join` (internal/xerrors/join.go)
 deriving Repr
 
-/-- a finalizer: a user teardown (identified by `id`, panicking with `panic` if given) or the
-    `Unsubscribe` of an inner subscription holding its own finalizer list -/
+/-- a finalizer: a user teardown (identified by `id`, panicking with `panic` if given), the
+    `Unsubscribe` of an inner subscription holding its own finalizer list, or a Go closure that
+    performs several release actions one after the other WITHOUT isolating them
+    (`func() { subscriptions.Unsubscribe(); stop() }`, operator_utility.go:647-650): a panic in one
+    action ends the closure, the remaining actions are skipped and the panic escapes unwrapped -/
 inductive Fin
   | leaf (id : Nat) (panic : Option Err)
   | sub (fs : List Fin)
+  | closure (fs : List Fin)
 deriving Repr
 
 mutual
@@ -126,6 +130,7 @@ def Fin.run : Fin → List Nat × Option TErr
   | .sub fs =>
     let r := Fin.loop fs
     (r.1, if r.2.isEmpty then none else some (.join r.2))
+  | .closure fs => Fin.seq fs
 /-- the loop of subscription.go:136-142: every finalizer runs; errors are collected -/
 def Fin.loop : List Fin → List Nat × List TErr
   | [] => ([], [])
@@ -133,6 +138,25 @@ def Fin.loop : List Fin → List Nat × List TErr
     let a := Fin.run f
     let b := Fin.loop fs
     (a.1 ++ b.1, (match a.2 with | some e => [TErr.un e] | none => []) ++ b.2)
+/-- the statements of a closure: the first panic ends it -/
+def Fin.seq : List Fin → List Nat × Option TErr
+  | [] => ([], none)
+  | f :: fs =>
+    let a := Fin.run f
+    match a.2 with
+    | some e => (a.1, some e)
+    | none => let b := Fin.seq fs; (a.1 ++ b.1, b.2)
+end
+
+mutual
+/-- no unisolated multi-action closure anywhere in the tree -/
+def Fin.closureFree : Fin → Bool
+  | .leaf _ _ => true
+  | .sub fs => Fin.closureFreeL fs
+  | .closure _ => false
+def Fin.closureFreeL : List Fin → Bool
+  | [] => true
+  | f :: fs => Fin.closureFree f && Fin.closureFreeL fs
 end
 
 /-- `Unsubscribe` of a subscription whose finalizer list is `fs` -/
@@ -154,6 +178,7 @@ mutual
 def Fin.ids : Fin → List Nat
   | .leaf id _ => [id]
   | .sub fs => Fin.idsL fs
+  | .closure fs => Fin.idsL fs
 def Fin.idsL : List Fin → List Nat
   | [] => []
   | f :: fs => Fin.ids f ++ Fin.idsL fs
@@ -164,6 +189,7 @@ mutual
 def Fin.panics : Fin → List Err
   | .leaf _ p => p.toList
   | .sub fs => Fin.panicsL fs
+  | .closure fs => Fin.panicsL fs
 def Fin.panicsL : List Fin → List Err
   | [] => []
   | f :: fs => Fin.panics f ++ Fin.panicsL fs
@@ -179,6 +205,7 @@ mutual
 def Fin.assign (pan : Nat → Option Err) : Fin → Fin
   | .leaf id _ => .leaf id (pan id)
   | .sub fs => .sub (Fin.assignL pan fs)
+  | .closure fs => .closure (Fin.assignL pan fs)
 def Fin.assignL (pan : Nat → Option Err) : List Fin → List Fin
   | [] => []
   | f :: fs => Fin.assign pan f :: Fin.assignL pan fs
